@@ -58,6 +58,8 @@ def enc_name(spec):
     from dznpy.scoping import NamespaceIds
     how = spec.get('enc_as')
     ids = list(spec['enc'])
+    if not ids and how in ('dotted', 'colons'):
+        return ''  # no name at all, as a string
     if how == 'dotted' and len(ids) > 1:
         return '.'.join(ids)
     if how == 'colons' and len(ids) > 1:
